@@ -302,6 +302,15 @@ static void s_pfor_encode(int v, rng_t *r) {
         memset(&dm, 0, sizeof dm);
         size_t dn = varintPFORDecode(dst, o, &dm);
         if (dn != n || memcmp(o, a, n * 8)) OFAIL("success-with-output-that-does-not-decode-to-input", "%s returned %zu bytes", g_scen, nb);
+        else {
+            /* every reader of the stream must agree, not only the full decoder */
+            for (size_t i = 0; i < n; i++) {
+                if (varintPFORGetAt(dst, (uint32_t)i, &m) != a[i]) {
+                    OFAIL("success-with-output-that-does-not-decode-to-input", "%s: full decode is right but varintPFORGetAt(%zu) returns %" PRIu64 " for %" PRIu64, g_scen, i, varintPFORGetAt(dst, (uint32_t)i, &m), a[i]);
+                    break;
+                }
+            }
+        }
         free(o);
     }
     free(dst);
